@@ -802,6 +802,31 @@ impl VisitMut for Norm {
                 }
             }
         }
+        // N8k (pre-order, as N8): ITER.find(|p| B) => the first item of ITER for which B holds (p: &Item), as a loop with `break` (definition)
+        if let Expr::MethodCall(mc) = e {
+            if mc.method == "find" && mc.args.len() == 1 {
+                if let Expr::Closure(c) = &mc.args[0] {
+                    if c.inputs.len() == 1 && !body_has_return(&c.body) && matches!(&c.inputs[0], Pat::Ident(_)) {
+                        let sp = mc.method.span();
+                        let pat = c.inputs[0].clone();
+                        let body = &c.body;
+                        let recv = &mc.receiver;
+                        let acc = self.fresh("found");
+                        let x = self.fresh("x");
+                        let ne: Expr = parse_quote!({
+                            let mut #acc = None;
+                            for #x in #recv {
+                                let #pat = &#x;
+                                if #body { #acc = Some(#x); break; }
+                            }
+                            #acc
+                        });
+                        *e = ne;
+                        self.log("N8k-find-to-loop", sp);
+                    }
+                }
+            }
+        }
         // N8 (pre-order so that the produced loop gets the for-loop rules N8e/N9/N18): ITER.for_each(|p| B) => for p in ITER { B }
         if let Expr::MethodCall(mc) = e {
             if mc.method == "for_each" && mc.args.len() == 1 {
